@@ -48,6 +48,12 @@ def make_package(i, rng, count):
     for k, pat in enumerate(patterns_for(i, rng, count)):
         steps = [("s%d" % j, M.Prim(rng.choice(["int32", "string", "uint8"])), st) for j, st in enumerate(pat)]
         defs.append(M.Protocol("Pat%d" % k, steps))
+    lg = rng.fork("long")
+    if lg.chance(0.25):
+        # a protocol with more steps than a small counter can number (a device log with one step per channel, say): mostly plain
+        # steps, a few streams
+        n_ = lg.choice([lg.randint(126, 140), lg.randint(126, 140), lg.randint(250, 270)])
+        defs.append(M.Protocol("PatLong", [("c%d" % j, M.Prim(lg.choice(["int32", "uint8"])), lg.chance(0.06)) for j in range(n_)]))
     pkg = M.Package("Sketch", "pkg", {"model.yml": defs})
     hv = rng.fork("history")
     if hv.chance(0.4):
